@@ -29,6 +29,12 @@ def variants_of(draw, base, n, kinds=None, force_plain=False):
         v['program'] = base['program']
         v['variant_labels'] = labels
         v['variant_of'] = [i for i, o in enumerate(out) if o is src][0]
+        v.pop('cfgdir_of', None)   # (the rewriting works on a deep copy of src, which may carry src's own entry)
+        same = lambda a, b: json.dumps(a, sort_keys=True, default=repr) == json.dumps(b, sort_keys=True, default=repr)  # noqa: E731
+        # (text comparison: Python's == would take 0 for False and 1 for 1.0)
+        if same(v['files'], src['files']) and same(v.get('global_vars'), src.get('global_vars')) and v['root'] == src['root']:
+            # only the context differs: the SAME config files (one directory) are then used with another context
+            v['cfgdir_of'] = src.get('cfgdir_of', v['variant_of'])
         out.append(v)
     return out
 
